@@ -119,8 +119,6 @@ func actionKnown(a string) bool {
 
 type cfgFacts struct {
 	valid        bool // every rule has an API-valid action, known IP sets, <=1 dst IP set, known protocol names
-	profileLog   bool // some profile rule has action log
-	oddProtoName bool // some rule names a protocol the API allows but protocolToNumber does not know
 	profilePass  bool // some profile rule has action pass/next-tier
 }
 
@@ -131,9 +129,6 @@ func (c *gCfg) facts() cfgFacts {
 			f.valid = false
 		}
 		a := strings.ToLower(r.Action)
-		if inProfile && a == "log" {
-			f.profileLog = true
-		}
 		if inProfile && (a == "pass" || a == "next-tier") {
 			f.profilePass = true
 		}
@@ -156,11 +151,6 @@ func (c *gCfg) facts() cfgFacts {
 			}
 			if _, ok := protoNumberRef(p); !ok {
 				f.valid = false
-			} else if p.IsName {
-				switch strings.ToLower(p.Name) {
-				case "icmpv6", "udplite":
-					f.oddProtoName = true
-				}
 			}
 		}
 	}
@@ -266,59 +256,6 @@ func mkState(p *pkt) []byte {
 	return st
 }
 
-// bpfProtoCfg returns a copy of the configuration in which protocol names are
-// replaced by what the BUILDER's protocolToNumber makes of them (unknown name
-// -> 0); used only to attribute a verdict mismatch to the known finding.
-func bpfProtoCfg(c *gCfg) *gCfg {
-	line := c.line()
-	d := parseCfgLine(line)
-	fix := func(p *gProto) *gProto {
-		if p == nil || !p.IsName {
-			return p
-		}
-		switch strings.ToLower(p.Name) {
-		case "tcp", "udp", "icmp", "sctp":
-			return p
-		}
-		return &gProto{Num: 0}
-	}
-	each := func(r *gRule) { r.Proto, r.NotProto = fix(r.Proto), fix(r.NotProto) }
-	for _, ts := range [][]gTier{d.T, d.HP, d.HF, d.HN} {
-		for i := range ts {
-			for j := range ts[i].Policies {
-				for k := range ts[i].Policies[j].Rules {
-					each(&ts[i].Policies[j].Rules[k])
-				}
-			}
-		}
-	}
-	for _, ps := range [][]gPolicy{d.P, d.HPR} {
-		for j := range ps {
-			for k := range ps[j].Rules {
-				each(&ps[j].Rules[k])
-			}
-		}
-	}
-	return d
-}
-
-// stripProfileLog returns a copy of the configuration without the profile rules whose action is log.
-func stripProfileLog(c *gCfg) *gCfg {
-	d := parseCfgLine(c.line())
-	d.Debug = c.Debug
-	for _, ps := range []*[]gPolicy{&d.P, &d.HPR} {
-		for j := range *ps {
-			var keep []gRule
-			for _, r := range (*ps)[j].Rules {
-				if strings.ToLower(r.Action) != "log" {
-					keep = append(keep, r)
-				}
-			}
-			(*ps)[j].Rules = keep
-		}
-	}
-	return d
-}
 
 func matches(o outcome, ex obs) bool {
 	if o.kind != ex.kind || o.target != ex.target {
@@ -343,13 +280,6 @@ func exec(h *rt.H, s *state, op string) string {
 			// oracle: compiling a valid configuration never fails or crashes
 			if f.valid {
 				sig := "compile-" + res
-				if f.profileLog && res == "panic" {
-					// attribute to the known finding only if the SAME configuration without the
-					// profile rules whose action is log compiles
-					if _, r2 := build(stripProfileLog(s.cfg)); r2 == "ok" {
-						sig = "profile-log-panic"
-					}
-				}
 				h.OracleFail(sig, "the real polprog.Builder "+res+"s on a valid policy configuration", map[string]any{"prog": op})
 			}
 			return res
@@ -402,13 +332,6 @@ func exec(h *rt.H, s *state, op string) string {
 		f := s.cfg.facts()
 		if !good && f.valid {
 			sig := "verdict-mismatch"
-			if f.oddProtoName {
-				e2 := *e
-				e2.c = bpfProtoCfg(s.cfg)
-				if o.kind != "fault" && e.stateOK && matches(o, expectedObs(&e2, verdict(&e2, p))) {
-					sig = "proto-name-unsupported"
-				}
-			}
 			h.OracleFail(sig, "the real builder's instructions, interpreted, do not reach the reference verdict ("+ref+")",
 				map[string]any{"prog": s.cfg.line(), "pkt": op, "got": fmt.Sprintf("%s %d", o.kind, o.target)})
 		}
